@@ -53,27 +53,43 @@ Proof.
   rewrite parse_ymd_shift. apply ymd_roundtrip; assumption.
 Qed.
 
+Lemma parse_ymd_z_shift tz dst l1 l2 : parse_ymd_z tz dst (l1 ++ l2) (Z.of_nat (length l1)) = parse_ymd_z tz dst l2 0.
+Proof. unfold parse_ymd_z. rewrite !parse_ymd_shift. reflexivity. Qed.
+
+Theorem recorded_ymd_time_z tz dst b off t : 0 <= off <= blen b -> 0 <= t < 18446744073709551616 -> -86400 <= tz <= 86400 ->
+  DAY_2000 <= (t / 1000000 + tz) / 86400 -> (t / 1000000 + tz + DST_SAVE) / 86400 < DAY_2256 -> unambiguous dst t ->
+  parse_ymd_z tz dst (splice b off (create_ymd_z tz dst t)) off = t.
+Proof.
+  intros Ho Ht Htz Hlo Hhi Hu. unfold splice.
+  pose proof (firstn_len b off Ho) as E. set (l1 := firstn (Z.to_nat off) b) in *.
+  transitivity (parse_ymd_z tz dst (l1 ++ create_ymd_z tz dst t ++ skipn (Z.to_nat off + length (create_ymd_z tz dst t)) b) (Z.of_nat (length l1))).
+  { f_equal. symmetry. exact E. }
+  rewrite parse_ymd_z_shift. apply ymd_roundtrip_z; assumption.
+Qed.
+
 (* recording configuration (host clock, packet callback) and replay configuration (LiDAR clock) *)
 Definition replay_cfg (c : dcfg) : dcfg :=
   mk_dcfg (c_wait_for_difop c) (c_dense c) (c_split_mode c) (c_split_angle c) (c_num_blks c) (c_min_dist c) (c_max_dist c)
-          (c_start_angle c) (c_end_angle c) true (c_ts_first c) (c_pkt_cb c) (c_tz c) (c_user c) (c_tail c) (c_from_file c).
+          (c_start_angle c) (c_end_angle c) true (c_ts_first c) (c_pkt_cb c) (c_tz c) (c_user c) (c_tail c) (c_from_file c) (c_dst c).
 
 (* T3 (time half): the packet time of the replayed record = receive time = original packet time +
    one packet duration, exactly (the codec loses nothing at microsecond resolution) *)
 Theorem replay_time_offset d c variant b h :
   c_lidar_clock c = false -> c_pkt_cb c = true ->
   0 <= d_off_ts d <= blen b -> 0 <= h < 18446744073709551616 ->
-  (uses_utc d variant = false -> DAY_2000 <= (h / 1000000 + c_tz c) / 86400 < DAY_2256) ->
+  (uses_utc d variant = false -> -86400 <= c_tz c <= 86400 /\ DAY_2000 <= (h / 1000000 + c_tz c) / 86400 /\
+                                 (h / 1000000 + c_tz c + DST_SAVE) / 86400 < DAY_2256 /\ unambiguous (c_dst c) h) ->
   let rec := pkt_time d c variant b 0 h h in
   d_family d = Mech ->
   fst (pkt_time d (replay_cfg c) variant (snd rec) 0 0 0) = fst rec + d_packet_duration_ns d.
 Proof.
-  intros Hl Hp Ho Hh Hd. cbv zeta. intros Hf. unfold pkt_time. rewrite Hl, Hp, Hf. cbn [fst snd replay_cfg c_lidar_clock c_tz].
+  intros Hl Hp Ho Hh Hd. cbv zeta. intros Hf. unfold pkt_time. rewrite Hl, Hp, Hf. cbn [fst snd replay_cfg c_lidar_clock c_tz c_dst].
   replace (0 + d_off_ts d) with (d_off_ts d) by lia.
   change (skipn (Z.to_nat 0) ?x) with x.
   destruct (uses_utc d variant) eqn:E.
   - rewrite (recorded_utc_time b (d_off_ts d) h Ho Hh). lia.
-  - rewrite (recorded_ymd_time (c_tz c) b (d_off_ts d) h Ho Hh (Hd eq_refl)). lia.
+  - destruct (Hd eq_refl) as (Htz & Hlo & Hhi & Hu).
+    rewrite (recorded_ymd_time_z (c_tz c) (c_dst c) b (d_off_ts d) h Ho Hh Htz Hlo Hhi Hu). lia.
 Qed.
 
 (* ---- T1: what the packet callback receives *)
